@@ -99,8 +99,8 @@ func c31Gen(r *core.Rand, tier string) any {
 	return sc
 }
 
-// stallWriter is a backup destination that stalls once, for d, on its first write.
-type stallWriter struct {
+// c31StallWriter is a backup destination that stalls once, for d, on its first write.
+type c31StallWriter struct {
 	d       time.Duration
 	ev      func() int
 	started time.Time
@@ -108,7 +108,7 @@ type stallWriter struct {
 	n       int
 }
 
-func (w *stallWriter) Write(p []byte) (int, error) {
+func (w *c31StallWriter) Write(p []byte) (int, error) {
 	if w.started.IsZero() {
 		w.started, w.seq = time.Now(), w.ev()
 		time.Sleep(w.d)
@@ -172,7 +172,7 @@ func c31Run(c *core.Ctx, raw json.RawMessage) {
 		}
 		switch sc.Holder {
 		case "backup":
-			w := &stallWriter{d: hold, ev: ev}
+			w := &c31StallWriter{d: hold, ev: ev}
 			t.Doing = "backup"
 			holderErr = n.Store.Backup(context.Background(), &proto.BackupRequest{Format: proto.BackupRequest_BACKUP_REQUEST_FORMAT_BINARY}, w)
 			t.Doing = ""
